@@ -489,6 +489,61 @@ func runWireTaint(c *core.Ctx) []core.Obligation {
 			}
 		}
 	}
+	// ---------------- the lengths that the allocations above take as non-negative by construction
+	for _, fn := range c.RepoFunctions() {
+		if fn.Blocks == nil || !strings.HasPrefix(shortName(fn), "thrift.") || fn.Synthetic != "" || fn.Name() != "ReadLength" {
+			continue
+		}
+		key := "length:" + shortName(fn) + ":sign"
+		bad := ""
+		n := 0
+		for _, r := range returnsOf(fn) {
+			if len(r.Results) != 2 {
+				continue
+			}
+			if k, isK := constInt(r.Results[0]); isK && k >= 0 {
+				continue
+			}
+			n++
+			for _, o := range origins(r.Results[0]) {
+				v := stripConv(o)
+				if k, isK := constInt(v); isK && k >= 0 {
+					continue
+				}
+				bt, ok := v.Type().Underlying().(*types.Basic)
+				if ok && bt.Info()&types.IsUnsigned != 0 {
+					continue
+				}
+				if ok && bt.Kind() == types.Int32 && !signedUnchecked(o, r.Block()) {
+					continue
+				}
+				if call, isCall := v.(*ssa.Call); isCall {
+					if f := staticCallee(call.Common()); f != nil && f.Name() == "ReadLength" {
+						continue // delegation to another ReadLength, itself checked
+					}
+				}
+				if ex, isEx := v.(*ssa.Extract); isEx {
+					if call, isCall := ex.Tuple.(*ssa.Call); isCall {
+						if f := staticCallee(call.Common()); f != nil && (f.Name() == "ReadLength" || f.Name() == "readUvarint") {
+							continue
+						}
+						if call.Common().IsInvoke() && call.Common().Method.Name() == "ReadLength" {
+							continue // a wrapper around another Reader
+						}
+					}
+				}
+				bad = c.InstrPos(r)
+			}
+		}
+		switch {
+		case bad != "":
+			b.addP([]string{"C08"}, core.Violation, key, bad, fmt.Sprintf("%s can return a negative length with a nil error (a signed wire integer converted without a sign test): ReadBytes, ReadString and every string or []byte decode size their buffer with it and panic (makeslice: len out of range) on a length prefix with the top bit set", shortName(fn)))
+		case n == 0:
+			b.addP([]string{"C08"}, core.Undecided, key, c.FuncPos(fn), "ReadLength has no value return")
+		default:
+			b.addP([]string{"C08"}, core.Discharged, key, c.FuncPos(fn), "the length is an unsigned quantity, or sign-tested, on every return")
+		}
+	}
 	return b.out
 }
 
